@@ -26,7 +26,7 @@ pub static INFO: PropInfo = PropInfo {
     rule: "cases: single instructions built through the public AST over regions {a, b, c} (indices 0..=2) with expressions nested to depth 3: every classical kind and operator (ADD..DIV, AND..ASHR, NEG/NOT, MOVE, EXCHANGE, CONVERT, EQ..LT, LOAD, STORE) with literal / reference operands, JUMP-WHEN/UNLESS, gates with parameters, MEASURE with/without target, PULSE/CAPTURE/RAW-CAPTURE with waveform parameters, DELAY, SET-*/SHIFT-*, the memory-free kinds (FENCE, HALT, WAIT, NOP, INCLUDE, JUMP, LABEL, PRAGMA, RESET, SWAP-PHASES, DECLARE, DEFFRAME), definitions (DEFCAL, DEFCAL MEASURE, DEFCIRCUIT, DEFGATE matrix, DEFWAVEFORM), and CALLs against 200 generated extern signatures (arity <= 3, scalar / fixed / variable vectors, mutable or not, with and without return) with slot-wise fitting arguments (plus a few ill-formed calls, observed but not judged). distinct = distinct instruction text (+ signature for CALL); non-trivial = the model expects at least one access.",
     assumptions: &[
         "CALL: membership of the return-slot region in `reads` is not constrained (statement vs code comment differ)",
-        "definitions: only `reported regions are mentioned by the definition` is asserted",
+        "definitions: `reported regions are mentioned by the definition`, and - when a definition reports any access - it must cover the accesses the handler reports for each instruction of its body",
         "PRAGMA arguments never name a region",
         "ill-formed CALLs (wrong arity, unknown extern, immediate in a non-scalar or mutable slot) may fail or report anything mentioned; only counted",
     ],
@@ -112,6 +112,35 @@ fn judge_plain(ctx: &mut Ctx, externs: &ExternSignatureMap, i: &Instruction, tex
                             &format!("phantom-region-reported:{k}"),
                             json!({"region": r, "mentioned": allowed, "all": all}),
                         );
+                    }
+                    // Compositional clause: a definition that reports accesses at all reports them
+                    // for what its body does, so it must cover what the handler itself reports for
+                    // each body instruction, kind by kind.  (A definition that reports nothing is not
+                    // judged: "definitions access nothing" would be a consistent reading too.)
+                    let body: Option<&Vec<Instruction>> = match i {
+                        Instruction::CalibrationDefinition(c) => Some(&c.instructions),
+                        Instruction::MeasureCalibrationDefinition(c) => Some(&c.instructions),
+                        Instruction::CircuitDefinition(c) => Some(&c.instructions),
+                        _ => None,
+                    };
+                    if let (Some(body), false) = (body, reported.is_empty()) {
+                        ctx.count("definition:compositional-clause-checked");
+                        for b in body {
+                            if let Ok(Ok(inner)) = guarded(|| observe(externs, b)) {
+                                for (which, sub, sup) in [
+                                    ("reads", &inner.reads, &got.reads),
+                                    ("writes", &inner.writes, &got.writes),
+                                    ("captures", &inner.captures, &got.captures),
+                                ] {
+                                    if let Some(r) = sub.difference(sup).next() {
+                                        ctx.violation(
+                                            &format!("definition-misses-an-access-of-its-body:{k}:{which}"),
+                                            json!({"region": r, "body_instruction": format!("{b:?}"), "definition_reports": all}),
+                                        );
+                                    }
+                                }
+                            }
+                        }
                     }
                 }
                 Expectation::Call => {}
